@@ -73,8 +73,13 @@ def quick_timer_duration(ctx, R="C04.R8"):
         enc, dec = m.get_class("QuickTimerEncoder"), m.get_class("QuickTimerDecoder")
         ctx.require(enc is not None and dec is not None, f"{m.relpath}: QuickTimerEncoder/QuickTimerDecoder vanished")
         fe, fd = enc.methods.get("_encode_duration"), dec.methods.get("_decode_duration")
+        whole = None
         if fe is None:
-            raise AnalysisError(f"{m.relpath}: the duration helper of the quick timer encoder is not a separate method any more")
+            # helper inlined or moved: evaluate encode() itself on a stand-in message; the hour and minute bytes are the last two
+            # of the record (the same assumption the decoder fallback below makes)
+            whole = enc.methods.get("encode")
+            ctx.require(whole is not None and len(whole.args.args) >= 3, f"{m.relpath}: QuickTimerEncoder.encode vanished")
+            fe = whole
         pe = fe.args.args[1].arg
         dur_expr = None
         if fd is not None:
@@ -92,9 +97,24 @@ def quick_timer_duration(ctx, R="C04.R8"):
                 raise AnalysisError(f"{m.relpath}: the decoded duration cannot be located in QuickTimerDecoder.decode")
             pd = [e_.id for e_ in unp.targets[0].elts[-2:]]
 
-        def encode(sec, fe=fe, enc=enc, m=m, pe=pe):
+        def encode(sec, fe=fe, enc=enc, m=m, pe=pe, whole=whole):
             try:
-                r = Mini(ctx.repo, m, {}, enc).function_value(fe, {pe: _dt.timedelta(seconds=sec)})
+                if whole is not None:
+                    from ..minieval import FakeObj
+
+                    mini = Mini(ctx.repo, m, {}, enc)
+                    tci = m.get_class("TimerType")
+                    member = next((k for k in (tci.attrs if tci is not None else {}) if not k.startswith("_")), None)
+                    if member is None:
+                        raise AnalysisError(f"{m.relpath}: TimerType has no members")
+                    ttv = mini.ev(ast.parse(f"TimerType.{member}", mode="eval").body, {})
+                    msg = FakeObj("QuickTimerMessage", ac_number=0, timer_type=ttv, duration=_dt.timedelta(seconds=sec))
+                    raw = mini.function_value(whole, {whole.args.args[1].arg: None, whole.args.args[2].arg: msg})
+                    if not (isinstance(raw, (bytes, bytearray)) and len(raw) >= 2):
+                        raise AnalysisError(f"{m.relpath}: QuickTimerEncoder.encode does not give a byte record")
+                    r = (raw[-2], raw[-1])
+                else:
+                    r = Mini(ctx.repo, m, {}, enc).function_value(fe, {pe: _dt.timedelta(seconds=sec)})
             except Unsupported as ex:
                 raise AnalysisError(f"{m.relpath}: _encode_duration left the evaluable fragment: {ex}")
             if not (isinstance(r, tuple) and len(r) == 2 and all(isinstance(x, int) for x in r)):
